@@ -26,6 +26,12 @@ pub fn fingerprint(m: &Message, accounts: &[Account]) -> Vec<u8> {
     }
     f.push(0);
     f.extend(m.auth.signature.as_bytes());
+    f.push(0);
+    // the instant the presented date text denotes (a corrupted text denotes none)
+    match refm::iso_parse(m.auth.date_text.as_bytes()) {
+        (refm::IsoClass::MustReject, _) | (_, None) => f.extend(b"no-instant"),
+        (_, Some(t)) => f.extend(refm::compact_utc(t).as_bytes()),
+    }
     f
 }
 
@@ -568,7 +574,21 @@ pub const BAD_ESCAPES: [&[u8]; 16] = [
 pub fn corrupt_date(text: &str, t: &mut Tape) -> String {
     for _ in 0..8 {
         let mut s = text.as_bytes().to_vec();
-        match t.below(9) {
+        match t.below(10) {
+            9 => {
+                // white space that header normalisation does not remove
+                let pad: &[u8] = [&b"\t"[..], b"\n", b" "][t.below(3)];
+                if t.chance(2) {
+                    s.extend(pad);
+                } else {
+                    s.splice(0..0, pad.iter().cloned());
+                }
+                if pad == b" " {
+                    // a plain space is only foreign inside the text
+                    let mid = s.len() / 2;
+                    s.insert(mid, b' ');
+                }
+            }
             0 => {
                 s.pop();
             }
@@ -614,7 +634,18 @@ pub fn corrupt_date(text: &str, t: &mut Tape) -> String {
                     }
                 }
             }
-            7 => s = b"Sun, 30 Aug 2015 12:36:00 GMT".to_vec(),
+            7 => {
+                if t.chance(2) {
+                    s = b"Sun, 30 Aug 2015 12:36:00 GMT".to_vec()
+                } else {
+                    // a leap-second style seconds field (60 / 61): no such instant in this calendar
+                    let digits: Vec<usize> = (0..s.len()).filter(|i| s[*i].is_ascii_digit()).collect();
+                    if digits.len() >= 14 {
+                        s[digits[12]] = b'6';
+                        s[digits[13]] = b'0' + t.below(2) as u8;
+                    }
+                }
+            }
             _ => s = Vec::new(),
         }
         if refm::iso_parse(&s).0 == refm::IsoClass::MustReject {
@@ -664,6 +695,8 @@ pub fn apply_defect(kind: &'static str, m: &mut Message, cx: &FaultCtx, t: &mut 
         }
         "both-carriers" => {
             m.quirks.other_carrier = true;
+            // whatever the parameter's value: its presence beside an Authorization header suffices
+            m.quirks.other_carrier_alg = [None, Some("AWS4-ECDSA-P256-SHA256".to_string()), Some(String::new()), Some("aws4-hmac-sha256".to_string()), None][t.below(5)].clone();
             Rule::BothCarriers
         }
         "bad-algorithm" => {
